@@ -71,6 +71,20 @@ inductive WsdlQueryRule where
   | other
   deriving Repr, DecidableEq
 
+/-- `HttpPattern.hello`: the address an address-less pattern gets -/
+inductive PatternDefaultRule where
+  | publicName      -- the method's public name (`descriptor.name`)                         (good)
+  | functionName    -- `descriptor.operation_name`: the python function / operation name
+  | other
+  deriving Repr, DecidableEq
+
+/-- `_from_soap`: where the Body of a SOAP envelope is looked for -/
+inductive SoapBodyRule where
+  | directChild     -- the Envelope's own Body child ('e:Body')                              (good)
+  | anyDescendant   -- the first Body anywhere below the Envelope ('.//e:Body'): header content can win
+  | other
+  deriving Repr, DecidableEq
+
 structure Facts11 where
   /-- `spyne.const.REQUEST_SUFFIX` -/
   requestSuffix : Text
@@ -95,6 +109,8 @@ structure Facts11 where
   mixedAuxRefused : Bool
   /-- a dict document must have exactly one key (the method name); otherwise a client fault, nothing runs -/
   docSingleKey : Bool
+  patternDefault : PatternDefaultRule
+  soapBody : SoapBodyRule
 
 /-! ## Declarations as written by the user, and what the decorator makes of them -/
 
@@ -108,8 +124,8 @@ structure MethodDecl where
   inMsg : Option Text := none       -- `_in_message_name`
   outMsg : Option Text := none      -- `_out_message_name`
   keySuffix : Text := []            -- `_internal_key_suffix`
-  /-- raw `HttpPattern` data: (verb alternatives, address) -/
-  patterns : List (Option (List Text) × Text) := []
+  /-- raw `HttpPattern` data: (verb alternatives, address; `none`: no address given) -/
+  patterns : List (Option (List Text) × Option Text) := []
   /-- `_aux=` on the method itself -/
   auxOwn : Bool := false
   /-- `_body_style='bare'` (or `_soap_body_style='rpc'`) -/
@@ -184,6 +200,17 @@ def resolveIn (F : Facts11) (d : MethodDecl) : Except DeclErr (Option Text × Te
 def resolveOut (F : Facts11) (d : MethodDecl) : Option Text × Text :=
   splitBrace (d.outMsg.getD (d.func ++ F.responseSuffix))
 
+/-- `p.hello(descriptor)` (decorator.py:540-542, protocol/http.py:477-479): an address-less pattern of a
+    service method gets an address from the descriptor -/
+def fillPatterns (F : Facts11) (d : MethodDecl) (name : Text) :
+    List (Option (List Text) × Option Text) → List (Option (List Text) × Text)
+  | [] => []
+  | (v, some a) :: ps => (v, a) :: fillPatterns F d name ps
+  | (v, none) :: ps =>
+    (v, match F.patternDefault with
+        | .publicName => name
+        | _ => d.opName.getD d.func) :: fillPatterns F d name ps
+
 def resolveMethod (F : Facts11) (s : ServiceDecl) (d : MethodDecl) : Except DeclErr Method :=
   match resolveIn F d with
   | .error e => .error e
@@ -192,7 +219,8 @@ def resolveMethod (F : Facts11) (s : ServiceDecl) (d : MethodDecl) : Except Decl
     .ok { fid := d.fid, svcMod := s.modName, svcName := s.svcName, func := d.func, keySuffix := d.keySuffix,
           name := name, msgName := name, member := false, inKeyed := !(d.bare && d.bareArg),
           keyMod := s.keyMod.getD s.modName,
-          inNs := inNs, outName := outName, outNs := outNs, aux := s.aux || d.auxOwn, patterns := d.patterns }
+          inNs := inNs, outName := outName, outNs := outNs, aux := s.aux || d.auxOwn,
+          patterns := fillPatterns F d name d.patterns }
 
 def resolveMethodsGo (F : Facts11) (s : ServiceDecl) : List MethodDecl → Except DeclErr (List Method)
   | [] => .ok []
@@ -224,7 +252,9 @@ def resolveMember (F : Facts11) (tns : Text) (c : ClassDecl) (d : MethodDecl) : 
     .ok { fid := d.fid, svcMod := c.ns.getD tns, svcName := c.typeName, func := d.func, keySuffix := d.keySuffix,
           name := if firstSeg msg = c.typeName || !F.memberKeyPrefixed then msg else c.typeName ++ '.' :: msg,
           msgName := msg, member := true, inKeyed := true, keyMod := c.ns.getD tns,
-          inNs := inNs, outName := outName, outNs := outNs, aux := false, patterns := d.patterns }
+          inNs := inNs, outName := outName, outNs := outNs, aux := false,
+          -- (`hello` is not called for member methods; address-less patterns on them are not modelled)
+          patterns := d.patterns.filterMap (fun va => va.2.map (fun a => (va.1, a))) }
 
 def resolveMembers (F : Facts11) (tns : Text) (c : ClassDecl) : List MethodDecl → Except DeclErr (List Method)
   | [] => .ok []
